@@ -48,7 +48,7 @@ func instrDominates(a, b ssa.Instruction) bool {
 	if ba == bb {
 		return indexInBlock(a) < indexInBlock(b)
 	}
-	return ba.Dominates(bb)
+	return blockDominates(ba, bb)
 }
 
 // ---------------------------------------------------------------------------
@@ -305,6 +305,9 @@ func (k *keyer) Key(v ssa.Value) string {
 }
 
 func (k *keyer) key(v ssa.Value) string {
+	if cv := canonPhi(v); cv != v {
+		return k.Key(cv)
+	}
 	switch x := v.(type) {
 	case *ssa.Const:
 		if x.Value == nil {
@@ -610,4 +613,14 @@ func (k *keyer) localFieldKey(a *ssa.Alloc, fld int, at ssa.Instruction, depth i
 		return "zero", true
 	}
 	return k.Key(v) + "." + name, true
+}
+
+// paramIndex: position of parameter pa among fn.Params (-1 if it is not one of them).
+func paramIndex(fn *ssa.Function, pa *ssa.Parameter) int {
+	for i, q := range fn.Params {
+		if q == pa {
+			return i
+		}
+	}
+	return -1
 }
